@@ -3,7 +3,6 @@ package main
 import (
 	"fmt"
 	"go/token"
-	"sort"
 	"strings"
 
 	"golang.org/x/tools/go/ssa"
@@ -287,36 +286,7 @@ func rulesC02(w *World, r *Report) {
 		"(*Encoder).writeRef":    single(0x51),
 		"(*Encoder).WriteData":   single('N'),
 	}
-	var names []string
-	for k := range allowed {
-		names = append(names, k)
-	}
-	sort.Strings(names)
-	nH := 0
-	for _, name := range names {
-		fn := w.fn(name)
-		if fn == nil {
-			r.undecided("C02.R2 container headers conform", name, "-", "anchor not found")
-			continue
-		}
-		r.fnSeen(name)
-		f := w.flow(fn)
-		cnt := 0
-		for _, cs := range w.callSitesIn(fn) {
-			if cs.callee != "(*Encoder).writeBT" {
-				continue
-			}
-			for _, v := range varargBytes(cs.call) {
-				nH++
-				cnt++
-				s, fl := f.ValueAt(v, cs.call.Block())
-				ok := s != nil && !s.Empty() && s.SubsetOf(allowed[name]) && !fl.Lossy
-				r.add("C02.R2 container headers conform", fmt.Sprintf("%s · header octet #%d", name, cnt), w.instrPos(cs.call), ok,
-					fmt.Sprintf("octet ∈ %s; the specification allows %s here (lossy conversion=%v)", s.HexString(), allowed[name].HexString(), fl.Lossy))
-			}
-		}
-	}
-	r.floor("C02.R2 header octets", nH, 8)
+	w.ruleHeaderOctets(r, "C02.R2 container headers conform", allowed)
 	w.ruleListCount(r, "C02.R2 declared count = loop bound")
 	if fn := w.fn("(*Encoder).writeList"); fn != nil {
 		w.ruleCompactHeaders(r, "C02.R2 compact list header carries the true length", fn, 0x70, 0x77)
@@ -336,80 +306,6 @@ func rulesC02(w *World, r *Report) {
 	w.ruleRefOrdinal(r, "C02.R6 back-reference carries the registrar's ordinal")
 	r.note("spec table digest %s", specDigest())
 	include(w, r, "C04")
-}
-
-// ruleValuesPerIteration: element loops of the container writers write a
-// fixed number of values per iteration on every non-error path.
-func (w *World) ruleValuesPerIteration(r *Report, rule string) {
-	want := map[string][]int{"(*Encoder).writeList": {1}, "(*Encoder).writeObject": {1}, "(*Encoder).writeMap": {2, 1}}
-	var names []string
-	for k := range want {
-		names = append(names, k)
-	}
-	sort.Strings(names)
-	n := 0
-	for _, name := range names {
-		fn := w.fn(name)
-		if fn == nil {
-			r.undecided(rule, name, "-", "anchor not found")
-			continue
-		}
-		li := 0
-		for _, lp := range naturalLoops(fn) {
-			// element loops contain a WriteData call
-			has := false
-			for b := range lp.body {
-				for _, in := range b.Instrs {
-					if c, ok := in.(*ssa.Call); ok && c.Call.StaticCallee() != nil && fnName(c.Call.StaticCallee()) == "(*Encoder).WriteData" {
-						has = true
-					}
-				}
-			}
-			if !has {
-				continue
-			}
-			wantN := want[name][0]
-			if li < len(want[name]) {
-				wantN = want[name][li]
-			}
-			li++
-			n++
-			counts := map[int]bool{}
-			var dfs func(b *ssa.BasicBlock, k int, seen map[*ssa.BasicBlock]bool)
-			dfs = func(b *ssa.BasicBlock, k int, seen map[*ssa.BasicBlock]bool) {
-				if b == lp.header {
-					counts[k] = true
-					return
-				}
-				if !lp.body[b] || seen[b] {
-					return
-				}
-				seen[b] = true
-				defer delete(seen, b)
-				for _, in := range b.Instrs {
-					if c, ok := in.(*ssa.Call); ok && c.Call.StaticCallee() != nil && fnName(c.Call.StaticCallee()) == "(*Encoder).WriteData" {
-						k++
-					}
-				}
-				for _, s := range b.Succs {
-					dfs(s, k, seen)
-				}
-			}
-			for _, s := range lp.header.Succs {
-				if lp.body[s] {
-					dfs(s, 0, map[*ssa.BasicBlock]bool{})
-				}
-			}
-			var got []int
-			for k := range counts {
-				got = append(got, k)
-			}
-			sort.Ints(got)
-			ok := len(got) == 1 && got[0] == wantN
-			r.add(rule, fmt.Sprintf("%s · element loop #%d", name, li), w.pos(fn.Pos()), ok, fmt.Sprintf("values written per completed iteration: %v (want exactly %d; an iteration that writes none makes the declared count wrong)", got, wantN))
-		}
-	}
-	r.floor(rule, n, 4)
 }
 
 // ruleClassDef.
@@ -651,75 +547,6 @@ func callsToIn(b *ssa.BasicBlock, callee *ssa.Function) []*ssa.Call {
 		}
 	}
 	return out
-}
-
-// ruleMapFraming: after writeBT('H'|'M') every path to a nil-error return
-// passes writeBT('Z').
-func (w *World) ruleMapFraming(r *Report, rule string) {
-	fn := w.fn("(*Encoder).writeMap")
-	if fn == nil {
-		r.undecided(rule, "(*Encoder).writeMap", "-", "anchor not found")
-		return
-	}
-	f := w.flow(fn)
-	isTag := func(c *ssa.Call, tags ISet) bool {
-		if c.Call.StaticCallee() == nil || fnName(c.Call.StaticCallee()) != "(*Encoder).writeBT" {
-			return false
-		}
-		vs := varargBytes(c)
-		if len(vs) == 0 {
-			return false
-		}
-		s, _ := f.ValueAt(vs[0], c.Block())
-		return s != nil && !s.Empty() && s.SubsetOf(tags)
-	}
-	open := single('H').Union(single('M'))
-	n := 0
-	for _, b := range fn.Blocks {
-		for i, in := range b.Instrs {
-			c, ok := in.(*ssa.Call)
-			if !ok || !isTag(c, open) {
-				continue
-			}
-			n++
-			// DFS from after this call
-			bad := ""
-			seen := map[*ssa.BasicBlock]bool{}
-			var walk func(bb *ssa.BasicBlock, from int) bool
-			walk = func(bb *ssa.BasicBlock, from int) bool {
-				for _, x := range bb.Instrs[from:] {
-					if c2, isC := x.(*ssa.Call); isC && isTag(c2, single('Z')) {
-						// the terminator's own error is checked by C15; the frame is closed on the success path
-						return true
-					}
-					if ret, isRet := x.(*ssa.Return); isRet {
-						if isNilConst(ret.Results[len(ret.Results)-1]) {
-							bad = "a nil-error return at " + w.instrPos(ret) + " is reachable from the map header without writing Z"
-							return false
-						}
-						return true
-					}
-				}
-				for _, s := range bb.Succs {
-					if seen[s] {
-						continue
-					}
-					seen[s] = true
-					if !walk(s, 0) {
-						return false
-					}
-				}
-				return true
-			}
-			ok2 := walk(b, i+1)
-			fact := "every path from the header to a nil-error return passes writeBT('Z')"
-			if !ok2 {
-				fact = bad
-			}
-			r.add(rule, fmt.Sprintf("(*Encoder).writeMap · header #%d", n), w.instrPos(c), ok2, fact)
-		}
-	}
-	r.floor(rule, n, 2)
 }
 
 // ruleRefOrdinal: writeRef's argument is the registrar's result #0; writeRef
